@@ -151,7 +151,7 @@ func (r restClientProtocol) encodeEnd(op *operation, end *responseEnd, writer io
 
 func (r restClientProtocol) requestNeedsPrep(op *operation) bool {
 	return len(op.restTarget.vars) != 0 ||
-		len(op.request.URL.Query()) != 0 ||
+		len(queryOf(op.request.URL)) != 0 ||
 		restHTTPBodyRequest(op) ||
 		// non-nil, empty requestBodyFields means the request
 		// uses the entire body, but anything else requires prep
@@ -178,8 +178,8 @@ func (r restClientProtocol) prepareUnmarshalledRequest(op *operation, src []byte
 	// the parsed url.Values, a map, would bind parameters that touch the same field - its
 	// JSON name and its proto name, two members of a oneof - in a random order.)
 	for _, pair := range strings.Split(op.rawQuery, "&") {
-		if pair == "" || strings.Contains(pair, ";") {
-			continue // (as url.ParseQuery does)
+		if pair == "" {
+			continue
 		}
 		key, value, _ := strings.Cut(pair, "=")
 		fieldPath, keyErr := url.QueryUnescape(key)
@@ -359,7 +359,7 @@ func (r restServerProtocol) requestNeedsPrep(op *operation) bool {
 		return false // no REST bindings
 	}
 	return len(op.restTarget.vars) != 0 ||
-		len(op.request.URL.Query()) != 0 ||
+		len(queryOf(op.request.URL)) != 0 ||
 		op.restTarget.requestBodyFields != nil
 }
 
